@@ -324,3 +324,19 @@ def main : IO Unit := do
     (fun bs => outcomeText ((Generated.clusterBuilderParse (bs.drop 4) ((bs.getD 0 0).toNat, (bs.getD 1 0).toNat, leNat (slice bs 2 2))).map'
       (fun r => (r.1.1.1, r.1.1.2.1, r.1.1.2.2, r.1.2))))
     (fun bs => outcomeText ((ClusterTail.decode bs).map' (fun t => (0 :: t.offsets ++ [t.dataSize], t.dataSize, t.comp, t.rawSize))))
+  -- the fixed-width wrappers (`Count<uN>::parse`, `Size::parse`, `Offset::parse`): reads of 1, 2, 4, 8, 8, 8 bytes
+  let wrapIn : List Bytes := [[], [7], [1, 2], [1, 2, 3], [1, 2, 3, 4, 5], [1, 2, 3, 4, 5, 6, 7], [1, 2, 3, 4, 5, 6, 7, 8], [255, 255, 255, 255, 255, 255, 255, 255, 9]]
+  cmp1 "fixedWidthParsers" wrapIn
+    (fun bs => [Generated.countU8Parse bs, Generated.countU16Parse bs, Generated.countU32Parse bs, Generated.countU64Parse bs,
+      Generated.sizeParse bs, Generated.offsetParse bs].map outcomeText)
+    (fun bs => [takeLE bs 1, takeLE bs 2, takeLE bs 4, takeLE bs 8, takeLE bs 8, takeLE bs 8].map outcomeText)
+  -- the cluster header in front of the tail: every compression byte class, offset widths 0, 1, 8, 9, truncations
+  let compNat : Generated.SrcCompression → Nat := fun c => match c with | .none => 0 | .lz4 => 1 | .lzma => 2 | .zstd => 3
+  let clHeads : List Bytes := clTails ++ [[], [0], [4], [0, 1], [0, 0, 1, 0], [0, 9, 1, 0], [0, 8, 1, 0, 7], [2, 8, 255, 255], [4, 1, 1, 0], [255, 1, 1, 0], [3, 1, 1]]
+  cmp1 "clusterHeaderParse" clHeads
+    (fun bs => outcomeText ((Generated.clusterHeaderParse bs).map' (fun r => ((compNat r.1.1, r.1.2.1, r.1.2.2), r.2))))
+    (fun bs => outcomeText (
+      if bs.length < 4 then (.err .format : Outcome ((Nat × Nat × Nat) × Bytes)) else
+      if (bs.getD 0 0).toNat > 3 then .err .format else
+      if (bs.getD 1 0).toNat = 0 ∨ (bs.getD 1 0).toNat > 8 then .err .format else
+      .ok (((bs.getD 0 0).toNat, (bs.getD 1 0).toNat, leNat (slice bs 2 2)), bs.drop 4)))
